@@ -917,6 +917,30 @@ def run(ctx):
                         run_history(ctx, cls, flavour, bs, ops)
                         model_history(ctx, bs, flavour, ops, cls)
                         model_history_full(ctx, bs, flavour, ops, cls)
+            if cls in ("ConvexPolyhedron", "Polyhedron") and flavour == "generic":
+                # origin-centred, axis-aligned shapes (eigh returns signed permutations) - oracle only
+                for _ in range(int((6 if quick else 20) * ctx.widen)):
+                    bs = int(rng.integers(1 << 30))
+                    for ops in ([["call", "diagonalize_inertia", None]],
+                                [["setfac", "volume", 2.0], ["call", "diagonalize_inertia", None], ["call", "to_hoomd", None]]):
+                        case = {"cls": cls, "flavour": "aligned-centred", "base_seed": bs, "ops": ops}
+                        ctx.case(case)
+                        ctx.count("cls:" + cls)
+                        ctx.count("extra-aligned-centred")
+                        run_history(ctx, cls, "aligned-centred", bs, ops)
+            if cls == "Polyhedron" and flavour == "generic":
+                # operations that raise half-way on an off-origin solid with non-convex faces - oracle only
+                for _ in range(int((4 if quick else 12) * ctx.widen)):
+                    bs = int(rng.integers(1 << 30))
+                    for ops in ([["call", "to_hoomd", None]],
+                                [["setvec", "centroid", rng.uniform(-3, 3, size=3).tolist()], ["call", "to_hoomd", None],
+                                 ["setfac", "volume", 2.0]],
+                                [["call", "diagonalize_inertia", None], ["call", "to_hoomd", None]]):
+                        case = {"cls": cls, "flavour": "nonconvex-face", "base_seed": bs, "ops": ops}
+                        ctx.case(case)
+                        ctx.count("cls:" + cls)
+                        ctx.count("extra-nonconvex-face")
+                        run_history(ctx, cls, "nonconvex-face", bs, ops)
             if cls == "Polyhedron" and flavour == "triangulated-shuffled":
                 # merge_faces / sort_faces depend on accidents of labelling and face order (global flip needed or not,
                 # start face): more base shapes, with every cached observable read before AND after (run_history does)
